@@ -1,9 +1,18 @@
-// Validation of the Coq model PP.Model.HtmlDoc against stack/html.go.
+// Validation of the Coq models PP.Model.HtmlDoc (content region) and PP.Model.HtmlPage
+// (the whole document) against stack/html.go.
 //
-//	go run . gen [nrandom]   writes samples.v (the samples as Coq terms, the expected bytes
-//	                         of the content region as hex strings, one comparison per sample)
-//	go run . hex             prints "<name> <hex of the content region>" per sample
-//	go run . show <name>     prints the content region of one sample (text)
+//	go run . gen [nrandom] [nfiles]   writes samples_common.v and samples_<k>.v (the samples as Coq terms,
+//	                         the expected bytes of the WHOLE DOCUMENT and of the content region as hex
+//	                         strings, two comparisons per sample)
+//	go run . hex             prints "<name> <hex of the document>" per sample
+//	go run . show <name>     prints the document of one sample (text)
+//	go run . probe           prints what html/template makes of every byte 0..255 in each hole of the trailer
+//	go run . nilsnap         shows what Aggregated.ToHTML does when Aggregated.Snapshot is nil
+//
+// Nothing is masked: toHTML calls time.Now().Truncate(time.Second) itself; the program reads the clock
+// before and after the call and repeats the rendering until both readings fall into the same second, so the
+// value is known independently of the output.  runtime.Version() and runtime.GOMAXPROCS(0) are read
+// the same way toHTML reads them.
 //
 // The content region is everything from `<div id="content">` up to and
 // including the matching `</div>`.
@@ -17,9 +26,13 @@ import (
 	"log"
 	"math/rand"
 	"os"
+	"path/filepath"
 	"runtime"
 	"strconv"
 	"strings"
+	"time"
+
+	"html/template"
 
 	"github.com/maruel/panicparse/v2/stack"
 )
@@ -30,6 +43,11 @@ type sample struct {
 	buckets    []*stack.Bucket
 	goroutines []*stack.Goroutine
 	isG        bool
+	// the other fields of the Snapshot, and the footer argument
+	meta   stack.Snapshot
+	footer string
+	// filled by render
+	now string
 }
 
 const hostile = `<b>"x"&'y'`
@@ -52,20 +70,28 @@ func region(doc string) string {
 	return r
 }
 
+// the whole document; s.now is set to the creation time toHTML used
 func render(s *sample) string {
-	var buf bytes.Buffer
-	if s.isG {
-		sn := &stack.Snapshot{Goroutines: s.goroutines}
-		if err := sn.ToHTML(&buf, ""); err != nil {
-			panic(err)
+	for {
+		t0 := time.Now().Truncate(time.Second)
+		var buf bytes.Buffer
+		sn := s.meta // copy
+		if s.isG {
+			sn.Goroutines = s.goroutines
+			if err := sn.ToHTML(&buf, template.HTML(s.footer)); err != nil {
+				panic(err)
+			}
+		} else {
+			a := &stack.Aggregated{Snapshot: &sn, Buckets: s.buckets}
+			if err := a.ToHTML(&buf, template.HTML(s.footer)); err != nil {
+				panic(err)
+			}
 		}
-	} else {
-		a := &stack.Aggregated{Snapshot: &stack.Snapshot{}, Buckets: s.buckets}
-		if err := a.ToHTML(&buf, ""); err != nil {
-			panic(err)
+		if t1 := time.Now().Truncate(time.Second); t0.Equal(t1) {
+			s.now = t0.String()
+			return buf.String()
 		}
 	}
-	return region(buf.String())
 }
 
 // ---------------------------------------------------------------- hand-made samples
@@ -197,6 +223,82 @@ func handMade() []*sample {
 				RemoteSrcPath: "/tmp/'\"><svg onload=1>", Line: 1, SrcName: hostile, DirSrc: "", ImportPath: "x\"><y", Location: stack.GoMod}},
 				Elided: true}}, IDs: []int{1}},
 	}})
+	out = append(out, metaSamples(mainCall, stdCall, hostileCall)...)
+	// ex_page_hostile (Properties/C17c.v: C17_example_page_hostile) renders the buckets of ex_hostile
+	var exh []*stack.Bucket
+	for _, s := range out {
+		if s.name == "ex_hostile" {
+			exh = s.buckets
+		}
+	}
+	for _, s := range out {
+		if s.name == "ex_page_hostile" {
+			s.buckets = exh
+		}
+	}
+	return out
+}
+
+// samples about the trailer: GOROOTs, GOPATHs, go modules, footer, long elided stacks
+func metaSamples(mainCall, stdCall, hostileCall stack.Call) []*sample {
+	var out []*sample
+	one := []*stack.Bucket{{Signature: stack.Signature{State: "running", Stack: stack.Stack{Calls: []stack.Call{mainCall}}}, IDs: []int{1}}}
+	add := func(name string, isG bool, m stack.Snapshot, footer string) {
+		sm := &sample{name: name, isG: isG, meta: m, footer: footer}
+		if isG {
+			sm.goroutines = []*stack.Goroutine{{Signature: stack.Signature{State: "running", Stack: stack.Stack{Calls: []stack.Call{stdCall}}}, ID: 1, First: true}}
+		} else {
+			sm.buckets = one
+		}
+		out = append(out, sm)
+	}
+	// GOROOT variants
+	add("meta_empty", false, stack.Snapshot{}, "")
+	add("meta_goroot_remote_only", false, stack.Snapshot{RemoteGOROOT: "/usr/local/go"}, "")
+	add("meta_goroot_local_only", false, stack.Snapshot{LocalGOROOT: "/opt/go"}, "")
+	add("meta_goroot_same", true, stack.Snapshot{LocalGOROOT: "/opt/go", RemoteGOROOT: "/opt/go"}, "")
+	add("meta_goroot_differ", true, stack.Snapshot{LocalGOROOT: "/opt/go", RemoteGOROOT: "/usr/local/go"}, "")
+	add("meta_goroot_hostile", false, stack.Snapshot{LocalGOROOT: "/l/" + hostile + "\x00+", RemoteGOROOT: "/r/</li><script>alert(1)</script>"}, "")
+	// GOPATHs: 0 / 1 / many, empty strings inside
+	add("meta_gopath_1", false, stack.Snapshot{LocalGOPATHs: []string{"/home/u/go"}}, "")
+	add("meta_gopath_3", true, stack.Snapshot{LocalGOPATHs: []string{"/home/u/go", "", "/g" + hostile}}, "")
+	add("meta_gopath_empty_strings", false, stack.Snapshot{LocalGOPATHs: []string{"", ""}}, "")
+	add("meta_remote_gopaths_ignored", false, stack.Snapshot{RemoteGOPATHs: map[string]string{"/r" + hostile: "/l" + hostile, "/a": "/b"}}, "")
+	// modules: 0 (nil / empty map) / 1 / many; keys in every order; hostile keys and values
+	add("meta_gomods_emptymap", false, stack.Snapshot{LocalGomods: map[string]string{}}, "")
+	add("meta_gomods_1", false, stack.Snapshot{LocalGomods: map[string]string{"/src/foo": "example.com/foo"}}, "")
+	add("meta_gomods_many", true, stack.Snapshot{LocalGomods: map[string]string{"/z": "z", "/a": "a", "": "empty key", "/a/b": "", "/Z": "upper", "/a\x00": "nul", "/a ": "space", "/\xff": "high", "/é": "utf8"}}, "")
+	add("meta_gomods_hostile", false, stack.Snapshot{LocalGomods: map[string]string{
+		"/m/" + hostile:                "imp/" + hostile,
+		"</li></ul><script>x</script>": "'\"><img src=x onerror=alert(1)>",
+		"{{.}}":                        "{{template \"Join\" .}}",
+		"/m/\x00+`=\t\n":               "&amp;&#34;",
+	}}, "")
+	// footer
+	add("meta_footer", false, stack.Snapshot{}, "<p class=\"f\">made by 'me' & co</p>")
+	add("meta_footer_unbalanced", true, stack.Snapshot{LocalGOROOT: "/x"}, "</table><div>\x00+<script>{{.}}")
+	// everything at once
+	add("meta_all", false, stack.Snapshot{LocalGOROOT: "/opt/go", RemoteGOROOT: "/usr/local/go", LocalGOPATHs: []string{"/g1", "/g2"},
+		RemoteGOPATHs: map[string]string{"/rg": "/g1"}, LocalGomods: map[string]string{"/src/b": "b", "/src/a": "a"}}, "<hr>")
+	// the example of Properties/C17c.v
+	add("ex_page_hostile", false, stack.Snapshot{LocalGOROOT: "/l<i>", RemoteGOROOT: "\"><script>", LocalGOPATHs: []string{"<b>", "'&"},
+		RemoteGOPATHs: map[string]string{"<x>": "<y>"}, LocalGomods: map[string]string{"</ul>": "<svg onload=1>", "'a'": "\"b\""}}, "<p>footer</p>")
+	// long stacks: 51, 100, 120 frames, elided
+	for _, n := range []int{51, 100, 120} {
+		var calls []stack.Call
+		for i := 0; i < n; i++ {
+			c := mainCall
+			if i%7 == 3 {
+				c = hostileCall
+			}
+			c.Line = i
+			calls = append(calls, c)
+		}
+		out = append(out, &sample{name: fmt.Sprintf("long_%d", n), buckets: []*stack.Bucket{
+			{Signature: stack.Signature{State: "select", Stack: stack.Stack{Calls: calls, Elided: true}}, IDs: []int{1, 2}}}})
+		out = append(out, &sample{name: fmt.Sprintf("long_g_%d", n), isG: true, goroutines: []*stack.Goroutine{
+			{Signature: stack.Signature{State: "select", Stack: stack.Stack{Calls: calls, Elided: true}}, ID: 5, RaceAddr: 0x10, RaceWrite: true}}})
+	}
 	return out
 }
 
@@ -313,6 +415,13 @@ func rstack(r *rand.Rand, max int) stack.Stack {
 
 func rsig(r *rand.Rand) stack.Signature {
 	s := stack.Signature{State: rstr(r), Locked: r.Intn(3) == 0, Stack: rstack(r, 3)}
+	if r.Intn(40) == 0 {
+		// a stack longer than what the runtime prints in one piece
+		s.Stack = stack.Stack{Elided: r.Intn(4) != 0}
+		for n := 51 + r.Intn(70); n > 0; n-- {
+			s.Stack.Calls = append(s.Stack.Calls, rcall(r))
+		}
+	}
 	if r.Intn(2) == 0 {
 		s.CreatedBy = rstack(r, 2)
 	}
@@ -326,11 +435,62 @@ func rsig(r *rand.Rand) stack.Signature {
 	return s
 }
 
+var footers = []string{"", "", "", "<hr>", "<p>generated by 'x' & \"y\"</p>", "</table></div><script>alert(1)</script>", "plain text + \x00 é", "{{.}}"}
+
+func rpath(r *rand.Rand) string {
+	switch r.Intn(4) {
+	case 0:
+		return rstr(r)
+	case 1:
+		return "/" + rstr(r)
+	default:
+		return []string{"/usr/local/go", "/home/u/go", "/src/app", "/opt/go", "C:\\go"}[r.Intn(5)] + "/" + pool[r.Intn(len(pool))]
+	}
+}
+
+func rmap(r *rand.Rand, n int) map[string]string {
+	if n == 0 {
+		if r.Intn(2) == 0 {
+			return nil
+		}
+		return map[string]string{}
+	}
+	m := map[string]string{}
+	for len(m) < n {
+		m[rpath(r)] = rstr(r)
+	}
+	return m
+}
+
+func rmeta(r *rand.Rand) stack.Snapshot {
+	m := stack.Snapshot{}
+	switch r.Intn(5) {
+	case 0:
+	case 1:
+		m.RemoteGOROOT = rpath(r)
+	case 2:
+		m.LocalGOROOT = rpath(r)
+	case 3:
+		m.LocalGOROOT = rpath(r)
+		m.RemoteGOROOT = m.LocalGOROOT
+	default:
+		m.LocalGOROOT, m.RemoteGOROOT = rpath(r), rpath(r)
+	}
+	for n := []int{0, 1, 1, 2, 3}[r.Intn(5)]; n > 0; n-- {
+		m.LocalGOPATHs = append(m.LocalGOPATHs, rpath(r))
+	}
+	m.RemoteGOPATHs = rmap(r, []int{0, 0, 1, 2, 3}[r.Intn(5)])
+	m.LocalGomods = rmap(r, []int{0, 0, 1, 2, 3, 4, 6}[r.Intn(7)])
+	return m
+}
+
 func randomSamples(n int) []*sample {
 	r := rand.New(rand.NewSource(20261002))
 	var out []*sample
 	for k := 0; k < n; k++ {
 		s := &sample{name: fmt.Sprintf("rnd%02d", k), isG: k%3 == 2}
+		s.meta = rmeta(r)
+		s.footer = footers[r.Intn(len(footers))]
 		cnt := r.Intn(3) + 1
 		for i := 0; i < cnt; i++ {
 			if s.isG {
@@ -428,8 +588,33 @@ func cGoroutine(g *stack.Goroutine) string {
 	return fmt.Sprintf("(mkGoroutine %s %s %s %s %s)", cSig(&g.Signature), cZ(g.ID), cBool(g.First), cBool(g.RaceWrite), cN(g.RaceAddr))
 }
 
-const coqHeader = `(* GENERATED by /tmp/htmldoc/main.go gen — do not edit. *)
-From PP Require Import Base.Bytes Base.BytesX Base.Num Model.Types Model.Html Model.UI Model.HtmlDoc.
+func cKV(m map[string]string) string {
+	// Go's (random) iteration order on purpose: the model has to sort
+	var o []string
+	for k, v := range m {
+		o = append(o, "("+cBytes(k)+", "+cBytes(v)+")")
+	}
+	return cList(o)
+}
+func cMeta(m *stack.Snapshot) string {
+	return fmt.Sprintf("(mkSnapMeta %s %s %s %s %s)", cBytes(m.LocalGOROOT), cStrList(m.LocalGOPATHs), cBytes(m.RemoteGOROOT), cKV(m.RemoteGOPATHs), cKV(m.LocalGomods))
+}
+
+// long strings are cut into pieces: a Coq string literal is a term as deep as it is long
+func cHex(s string) string {
+	const step = 2000
+	var o []string
+	for i := 0; i < len(s); i += step {
+		o = append(o, `hx "`+hex.EncodeToString([]byte(s[i:min(len(s), i+step)]))+`"`)
+	}
+	if len(o) == 0 {
+		return "[]"
+	}
+	return "List.concat [" + strings.Join(o, ";\n  ") + "]"
+}
+
+const coqCommon = `(* GENERATED by notes/htmldoc-validation/main.go gen — do not edit. *)
+From PP Require Import Base.Bytes Base.BytesX Base.Num Model.Types Model.Html Model.UI Model.HtmlDoc Model.HtmlPage.
 
 Definition hv (a : ascii) : N := let n := N_of_ascii a in if N.leb 97 n then (n - 87)%%N else (n - 48)%%N.
 Fixpoint hx (s : string) : bytes :=
@@ -444,37 +629,97 @@ Fixpoint first_diff (i : nat) (a b : bytes) : option (nat * bytes * bytes) :=
   end.
 
 Definition ver : bytes := (s2b %q).
-
+Definition maxprocs : Z := (%d)%%Z.
 `
 
-func gen(samples []*sample) {
-	f, err := os.Create("samples.v")
+func gen(samples []*sample, nfiles int) {
+	cf, err := os.Create("samples_common.v")
 	if err != nil {
 		panic(err)
 	}
-	defer f.Close()
-	fmt.Fprintf(f, coqHeader, runtime.Version())
-	for _, s := range samples {
-		exp := render(s)
+	fmt.Fprintf(cf, coqCommon, runtime.Version(), runtime.GOMAXPROCS(0))
+	cf.Close()
+	old, _ := filepath.Glob("samples_[0-9]*.v")
+	for _, o := range old {
+		os.Remove(o)
+	}
+	var fs []*os.File
+	for k := 0; k < nfiles; k++ {
+		f, err := os.Create(fmt.Sprintf("samples_%d.v", k))
+		if err != nil {
+			panic(err)
+		}
+		defer f.Close()
+		fmt.Fprintf(f, "(* GENERATED by notes/htmldoc-validation/main.go gen — do not edit. *)\nFrom PP Require Import Base.Bytes Base.BytesX Base.Num Model.Types Model.Html Model.UI Model.HtmlDoc Model.HtmlPage.\nFrom HD Require Import samples_common.\n\n")
+		fs = append(fs, f)
+	}
+	for i, s := range samples {
+		f := fs[i%nfiles]
+		doc := render(s)
+		reg := region(doc)
+		kind, typ := "buckets", "Bucket"
+		var o []string
 		if s.isG {
-			var o []string
+			kind, typ = "goroutines", "Goroutine"
 			for _, g := range s.goroutines {
 				o = append(o, "\n  "+cGoroutine(g))
 			}
-			fmt.Fprintf(f, "Definition in_%s : list Goroutine := %s.\n", s.name, cList(o))
-			fmt.Fprintf(f, "Definition out_%s : bytes := render_content_goroutines ver in_%s.\n", s.name, s.name)
 		} else {
-			var o []string
 			for _, b := range s.buckets {
 				o = append(o, "\n  "+cBucket(b))
 			}
-			fmt.Fprintf(f, "Definition in_%s : list Bucket := %s.\n", s.name, cList(o))
-			fmt.Fprintf(f, "Definition out_%s : bytes := render_content_buckets ver in_%s.\n", s.name, s.name)
 		}
-		fmt.Fprintf(f, "Definition exp_%s : bytes := hx \"%s\".\n", s.name, hex.EncodeToString([]byte(exp)))
-		fmt.Fprintf(f, "Eval vm_compute in (\"%s\"%%string, first_diff 0 out_%s exp_%s).\n\n", s.name, s.name, s.name)
+		fmt.Fprintf(f, "Definition in_%s : list %s := %s.\n", s.name, typ, cList(o))
+		fmt.Fprintf(f, "Definition meta_%s : snap_meta := %s.\n", s.name, cMeta(&s.meta))
+		fmt.Fprintf(f, "Definition env_%s : page_env := mkPageEnv ver %s maxprocs %s.\n", s.name, cBytes(s.now), cBytes(s.footer))
+		fmt.Fprintf(f, "Definition exp_%s : bytes := %s.\n", s.name, cHex(doc))
+		fmt.Fprintf(f, "Definition expr_%s : bytes := %s.\n", s.name, cHex(reg))
+		fmt.Fprintf(f, "Eval vm_compute in (\"page\"%%string, \"%s\"%%string, first_diff 0 (render_page_%s env_%s meta_%s in_%s) exp_%s).\n", s.name, kind, s.name, s.name, s.name, s.name)
+		fmt.Fprintf(f, "Eval vm_compute in (\"region\"%%string, \"%s\"%%string, first_diff 0 (render_content_%s ver in_%s) expr_%s).\n\n", s.name, kind, s.name, s.name)
 	}
-	fmt.Fprintf(os.Stderr, "wrote samples.v: %d samples\n", len(samples))
+	fmt.Fprintf(os.Stderr, "wrote samples_common.v and %d files: %d samples\n", nfiles, len(samples))
+}
+
+// what html/template does with every byte in every hole of the trailer (text nodes), in the favicon
+// position (not reachable: the favicon is a constant) and in the footer
+func probe() {
+	cut := func(doc, a, b string) string {
+		i := strings.Index(doc, a)
+		if i < 0 {
+			return "?"
+		}
+		j := strings.Index(doc[i+len(a):], b)
+		if j < 0 {
+			return "?"
+		}
+		return doc[i+len(a) : i+len(a)+j]
+	}
+	// exact per-byte table: one rendering per byte, all holes at once
+	fmt.Println("per-byte table (only bytes that are changed in at least one hole):")
+	for i := 0; i < 256; i++ {
+		b := string([]byte{byte(i)})
+		s1 := &sample{meta: stack.Snapshot{RemoteGOROOT: "R" + b + "R", LocalGOROOT: "L" + b + "L", LocalGOPATHs: []string{"P" + b + "P"},
+			LocalGomods: map[string]string{"K" + b + "K": "V" + b + "V"}}, footer: "F" + b + "F"}
+		d := render(s1)
+		outs := []string{cut(d, "GOROOT (remote): R", "R</li>"), cut(d, "GOROOT (local): L", "L</li>"), cut(d, "GOPATH: P", "P</li>"),
+			cut(d, "<li>K", "K: V"), cut(d, "K: V", "V</li>"), cut(d, "</table>F", "F<div class")}
+		changed := false
+		for _, o := range outs {
+			if o != b {
+				changed = true
+			}
+		}
+		if changed {
+			fmt.Printf("  0x%02x  rgoroot=%q lgoroot=%q gopath=%q modkey=%q modval=%q footer=%q\n", i, outs[0], outs[1], outs[2], outs[3], outs[4], outs[5])
+		}
+	}
+}
+
+func nilsnap() {
+	a := &stack.Aggregated{Buckets: []*stack.Bucket{{Signature: stack.Signature{State: "running"}, IDs: []int{1}}}}
+	var buf bytes.Buffer
+	err := a.ToHTML(&buf, "")
+	fmt.Printf("Aggregated{Snapshot: nil}.ToHTML: err=%v, %d bytes written, ends with %q\n", err, buf.Len(), buf.String()[max(0, buf.Len()-60):])
 }
 
 func main() {
@@ -483,14 +728,17 @@ func main() {
 	if len(os.Args) > 1 {
 		mode = os.Args[1]
 	}
-	n := 60
+	n, nfiles := 60, 8
 	if mode == "gen" && len(os.Args) > 2 {
 		n, _ = strconv.Atoi(os.Args[2])
+	}
+	if mode == "gen" && len(os.Args) > 3 {
+		nfiles, _ = strconv.Atoi(os.Args[3])
 	}
 	samples := append(handMade(), randomSamples(n)...)
 	switch mode {
 	case "gen":
-		gen(samples)
+		gen(samples, nfiles)
 	case "hex":
 		for _, s := range samples {
 			fmt.Printf("%s %s\n", s.name, hex.EncodeToString([]byte(render(s))))
@@ -501,8 +749,12 @@ func main() {
 				fmt.Println(render(s))
 			}
 		}
+	case "probe":
+		probe()
+	case "nilsnap":
+		nilsnap()
 	default:
-		fmt.Fprintln(os.Stderr, "usage: gen [n] | hex | show <name>")
+		fmt.Fprintln(os.Stderr, "usage: gen [n] [nfiles] | hex | show <name> | probe | nilsnap")
 		os.Exit(2)
 	}
 }
